@@ -570,6 +570,55 @@ def sc_reshape_route(n, m, c, e):
     _expect(t, ("elem", "x", (e // m_, e % m_)))
 
 
+def sc_reshape_merge(n, m, c, c2, e):
+    """reshape (n, m) -> (n*m,) with chunks (c, c2) on BOTH axes: accepted only for layouts whose merged chunks are regular"""
+    _start()
+    sx.assume(c <= n)
+    sx.assume(c2 <= m)
+    n_, m_, c_, c2_ = sx.conc(n), sx.conc(m), sx.conc(c), sx.conc(c2)
+    x = G.stub_array("x", (n_, m_), (c_, c2_))
+    out = _xp().reshape(x, (n_ * m_,))
+    _declared_ok(out, (n_ * m_,))
+    sx.assume(e < n_ * m_)
+    t, _ = _elem(out, (e,))
+    _expect(t, ("elem", "x", (e // m_, e % m_)))
+
+
+def sc_reshape_split(n, c, k, e0, e1):
+    """reshape (n,) -> (n // k, k) for k dividing n"""
+    _start()
+    sx.assume(c <= n)
+    n_, c_, k_ = sx.conc(n), sx.conc(c), sx.conc(k)
+    sx.assume(n_ % k_ == 0)
+    x = G.stub_array("x", (n_,), (c_,))
+    out = _xp().reshape(x, (n_ // k_, k_))
+    _declared_ok(out, (n_ // k_, k_))
+    sx.assume(e0 < n_ // k_)
+    sx.assume(e1 < k_)
+    t, _ = _elem(out, (e0, e1))
+    _expect(t, ("elem", "x", (e0 * k_ + e1,)))
+
+
+def sc_permute_3d(n, c, c2, perm, e0, e1, e2):
+    """permute_dims / moveaxis of a (2, n, 3) array with a permutation that is NOT its own inverse: out[i] = x[j] with j[axes[k]] = i[k]"""
+    _start()
+    sx.assume(c <= n)
+    axes = [(1, 2, 0), (2, 0, 1), (0, 2, 1), (2, 1, 0)][sx.conc(perm)]
+    shape = (2, n, 3)
+    x = G.stub_array("x", shape, (1, c, sx.conc(c2)))
+    out = _xp().permute_dims(x, axes)
+    oshape = tuple(shape[a] for a in axes)
+    _declared_ok(out, oshape)
+    i = (e0, e1, e2)
+    for k in range(3):
+        sx.assume(i[k] < oshape[k])
+    j = [None, None, None]
+    for k in range(3):
+        j[axes[k]] = i[k]
+    t, _ = _elem(out, i)
+    _expect(t, ("elem", "x", tuple(j)))
+
+
 def sc_qr(n, m, c):
     """tall-and-skinny QR: x (n, m) with row chunks c and a single column chunk"""
     _start()
@@ -922,6 +971,9 @@ SCENARIOS = {
     "arange": (sc_arange, lambda N: [("a", -3, 3), ("n", 1, N), ("st", -3, 3), ("c", 1, N), ("e", 0, N)]),
     "store[existing-target]": (sc_store_target, lambda N: [("n", 1, N), ("m", 1, N), ("c", 1, N), ("ct", 1, N), ("e", 0, N)]),
     "eye": (sc_eye, lambda N: [("n", 1, N), ("c", 1, N), ("k", -2, 2), ("e0", 0, N), ("e1", 0, N)]),
+    "reshape[2d->1d,chunks-on-both-axes]": (sc_reshape_merge, lambda N: [("n", 1, 5), ("m", 1, 4), ("c", 1, 5), ("c2", 1, 4), ("e", 0, 20)]),
+    "reshape[1d->2d]": (sc_reshape_split, lambda N: [("n", 1, 8), ("c", 1, 8), ("k", 1, 4), ("e0", 0, 8), ("e1", 0, 3)]),
+    "permute_dims[3d]": (sc_permute_3d, lambda N: [("n", 1, 4), ("c", 1, 4), ("c2", 1, 3), ("perm", 0, 3), ("e0", 0, 3), ("e1", 0, 3), ("e2", 0, 3)]),
     "reshape[2d->1d]": (sc_reshape_route, lambda N: [("n", 1, N), ("m", 1, 3), ("c", 1, N), ("e", 0, 3 * N)]),
 }
 
